@@ -187,8 +187,23 @@ class ImplInst:
         self.nreq = 0
         self.pulls = []     # instrumented generators: number of values pulled, per sendgen
         cls = layer_cls or isotp.TransportLayerLogic
+        # every kind of callable is a legal error handler: bound method, functools.partial, object with __call__ (chosen by the
+        # configuration, so that a replay makes the same choice)
+        kind = len(json.dumps(inst['params'], sort_keys=True, default=str)) % 3
+        if kind == 1:
+            import functools
+            handler = functools.partial(ImplInst._err, self)
+        elif kind == 2:
+            owner = self
+
+            class _Handler:
+                def __call__(self, e):
+                    owner._err(e)
+            handler = _Handler()
+        else:
+            handler = self._err
         self.layer = cls(rxfn=self._rxfn, txfn=self._txfn, address=make_layer_address(inst),
-                         error_handler=self._err, params=dict(inst['params']), post_send_callback=self._post_send)
+                         error_handler=handler, params=dict(inst['params']), post_send_callback=self._post_send)
 
     def _rxfn(self):
         return self.inbox.pop(0) if self.inbox else None
